@@ -275,5 +275,9 @@ m("C16", "C16-constant-condition-numeral-unchecked", "R16-onereader:numeral-chec
 m("C10", "C10-insert-leaves-holes", "R10-bounds:Insert:gap-filled-with-nil", ("state.go", "\t\t// the positions the list did not have yet hold nil\n\t\tfor i := top; i < reg; i++ {\n\t\t\tls.reg.Set(i, LNil)\n\t\t}\n", ""))
 m("C10", "C10-concat-of-nothing", "R10-bounds:Concat:nothing-to-concatenate-reads-nothing", ("state.go", "\tif len(values) == 0 {\n\t\treturn \"\"\n\t}\n\ttop := ls.reg.Top()\n\tfor _, value := range values {", "\ttop := ls.reg.Top()\n\tfor _, value := range values {"))
 m("C09", "C09-foreach-over-snapshot", "R10-bounds:ForEach:array-length-read-on-every-step", ("table.go", "\t\tfor i := 0; i < len(tb.array); i++ {\n\t\t\tif v := tb.array[i]; v != LNil && v != nil {", "\t\tfor i, v := range tb.array {\n\t\t\tif v != LNil && v != nil {"))
+
+m("C16", "C16-tonumber-base10-by-absence", "R16-onereader:baseToNumber:base-10-is-the-standard-conversion", ("baselib.go", "\tbase := L.OptInt(2, 10)\n\tif base == 10 {", "\tbase := L.OptInt(2, 10)\n\tif L.Get(2) == LNil {"))
+m("C16", "C16-tonumber-base-unchecked", "R16-onereader:baseToNumber:base-in-2..36-or-argument-error", ("baselib.go", "\tif base < 2 || base > 36 {\n\t\tL.ArgError(2, \"base out of range\")\n\t}\n", "\tif base < 2 {\n\t\tL.ArgError(2, \"base out of range\")\n\t}\n"))
+m("C16", "C16-hex-through-parseuint", "R16-onereader:parseNumber:numerals-not-cut-at-64-bits", ("utils.go", "\t\tv, ok := parseDigits(digits[2:], 16)\n\t\tif !ok {", "\t\tu, uerr := strconv.ParseUint(digits[2:], 16, 64)\n\t\tv, ok := LNumber(u), uerr == nil\n\t\tif !ok {"))
 if __name__ == "__main__":
     main()
